@@ -39,6 +39,71 @@ def parseBuf? (idx : Nat) (tok : String) : Option Buf := do
       pure { addr := 1024 * (idx + 1) + a, data := bs.toArray }
   | _ => none
 
+/-! ### long inputs (`L:<fn>` ops, round 3): buffers are 2^24 apart, contents may
+  be given as `@<len>,<mul>,<add>[,<pos>=<hh>]*` (byte i = 1 + (i*mul+add) % 251,
+  then the patches), results show `<length>:<FNV-1a 64>` instead of hex -/
+
+def BIG : Nat := 16777216
+
+def memOfBig (bufs : Array Buf) : Mem := fun a =>
+  let i := a / BIG - 1
+  if BIG ≤ a then
+    match bufs[i]? with
+    | some b => if b.addr ≤ a then b.data[a - b.addr]? else none
+    | none => none
+  else none
+
+def parseData? (hx : String) : Option (Array Byte) :=
+  if hx.startsWith "@" then do
+    match (hx.drop 1).toString.splitOn "," with
+    | ls :: ms :: as :: patches =>
+        let len ← ls.toNat?
+        let mul ← ms.toNat?
+        let add ← as.toNat?
+        let base : Array Byte := (Array.range len).map fun i => BitVec.ofNat 8 (1 + (i * mul + add) % 251)
+        patches.foldlM (fun (arr : Array Byte) (pt : String) => do
+          match pt.splitOn "=" with
+          | [ps, vs] =>
+              let pos ← ps.toNat?
+              let v ← parseBytes? vs
+              match v with
+              | [b] => pure (if pos < arr.size then arr.set! pos b else arr)
+              | _ => none
+          | _ => none) base
+    | _ => none
+  else (parseBytes? hx).map (·.toArray)
+
+def parseBufBig? (idx : Nat) (tok : String) : Option Buf := do
+  match (tok.drop 2).toString.splitOn ":" with
+  | [al, hx] =>
+      let a ← al.toNat?
+      let bs ← parseData? hx
+      pure { addr := BIG * (idx + 1) + a, data := bs }
+  | _ => none
+
+def fnvStep (h : UInt64) (b : Byte) : UInt64 := (h ^^^ b.toNat.toUInt64) * 0x100000001b3
+def FNV0 : UInt64 := 0xcbf29ce484222325
+
+def hex16 (h : UInt64) : String :=
+  let d := (Nat.toDigits 16 h.toNat)
+  String.ofList (List.replicate (16 - d.length) '0' ++ d)
+
+def hashedArr (bs : Array Byte) : String :=
+  toString bs.size ++ ":" ++ hex16 (bs.foldl fnvStep FNV0)
+
+/-- hash of the `n` cells of the memory from `p` on (`none`: one of them is unmapped) -/
+def hashMem (m : Mem) : Nat → Nat → UInt64 → Option UInt64
+  | 0, _, h => some h
+  | n + 1, p, h => match m p with
+    | some b => hashMem m n (p + 1) (fnvStep h b)
+    | none => none
+
+def dumpBufsBig (m : Mem) (bufs : Array Buf) : Option String :=
+  bufs.foldl (fun acc b => do
+    let s ← acc
+    let h ← hashMem m b.data.size b.addr FNV0
+    pure (s ++ " " ++ toString b.data.size ++ ":" ++ hex16 h)) (some "")
+
 def isBufTok (tok : String) : Bool :=
   match tok.toList with
   | c :: '=' :: _ => c.isUpper
@@ -64,6 +129,7 @@ def parseArg? (bufs : Array Buf) (tok : String) : Option Arg :=
     | _ => (parsePtr? bufs tok).map Arg.ptr
 
 def FUEL : Nat := 100000
+def LFUEL : Nat := 4000000
 
 def showPtr (base : Nat) : Option Nat → String
   | none => "N"
@@ -97,17 +163,29 @@ def finish (bufs : Array Buf) (r : Option (Mem × String)) : String :=
     | none => "fault"
     | some d => ret ++ d
 
-def strtokSeq (reent : Bool) (m : Mem) (base : Nat) :
+def finishBig (bufs : Array Buf) (r : Option (Mem × String)) : String :=
+  match r with
+  | none => "fault"
+  | some (m, ret) =>
+    match dumpBufsBig m bufs with
+    | none => "fault"
+    | some d => ret ++ d
+
+def strtokSeq (FUEL : Nat) (reent : Bool) (m : Mem) (base : Nat) :
     List Arg → Option Nat → List String → Option (Mem × String)
   | [], _, acc => some (m, String.intercalate "," acc.reverse)
   | Arg.call s d :: rest, save, acc =>
       match (if reent then strtok_r m s d save FUEL else strtok m s d save FUEL) with
       | none => none
-      | some (m, save, r) => strtokSeq reent m base rest save (showPtr base r :: acc)
+      | some (m, save, r) => strtokSeq FUEL reent m base rest save (showPtr base r :: acc)
   | _ :: _, _, _ => none
 
-def runOp (fn : String) (bufs : Array Buf) (args : List Arg) : String :=
-  let m := memOf bufs
+/-- `big = false`: the op format of rounds 1-2 (buffers 1024 apart, hex dump);
+`big = true`: an `L:` op (buffers 2^24 apart, hashed dump, more fuel) -/
+def runOpG (big : Bool) (fn : String) (bufs : Array Buf) (args : List Arg) : String :=
+  let m := if big then memOfBig bufs else memOf bufs
+  let FUEL := if big then LFUEL else FUEL
+  let finish := if big then finishBig else finish
   let base : Nat := match args with
     | Arg.ptr (some p) :: _ => p
     | Arg.call (some p) _ :: _ => p
@@ -156,26 +234,170 @@ def runOp (fn : String) (bufs : Array Buf) (args : List Arg) : String :=
           match r with
           | none => some (m, "N")
           | some p => some (m, bytesHex (readBlock m 4096 p)))
-    | "strtok", calls => some (strtokSeq false m base calls none [])
-    | "strtok_r", calls => some (strtokSeq true m base calls none [])
+    | "strtok", calls => some (strtokSeq FUEL false m base calls none [])
+    | "strtok_r", calls => some (strtokSeq FUEL true m base calls none [])
     | _, _ => none
   match res with
   | none => "bad-op"
   | some r => finish bufs r
+
+def runOp (fn : String) (bufs : Array Buf) (args : List Arg) : String := runOpG false fn bufs args
+
+/-! ### long WRITERS.  The memory of the model is a function; every `wr` wraps it
+  in one more closure, so a call that writes n bytes costs O(n^2) to run and to
+  read back: 300 KiB are out of reach.  For the ten functions that write O(n)
+  bytes the `L:` ops therefore print the RIGHT-HAND SIDE of the theorems of
+  Props.lean (`memcpy_spec`, `memmove_spec`, `memset_spec`, `strcpy_spec`,
+  `strncpy_short/_long`, `strlcpy_spec`, `strcat_spec`, `strncat_spec`,
+  `strdup_spec`, `strndup_string/_array`) evaluated on arrays: destination =
+  the list the theorem names, everything else unchanged, `fault` when a byte the
+  definition needs does not exist.  All other `L:` ops (the readers, strtok_r,
+  strlwr/strupr with a handful of letters) run the model itself. -/
+
+def decodePtr (bufs : Array Buf) (a : Nat) : Option (Nat × Nat) := do
+  let i := a / BIG - 1
+  if a < BIG then none else
+  let b ← bufs[i]?
+  if a < b.addr then none else pure (i, a - b.addr)
+
+def sliceA (b : Array Byte) (off n : Nat) : Option (Array Byte) :=
+  if off + n ≤ b.size then some (b.extract off (off + n)) else none
+
+def blitA (d : Array Byte) (off : Nat) (src : Array Byte) : Option (Array Byte) :=
+  if off + src.size ≤ d.size then
+    some ((d.extract 0 off) ++ src ++ (d.extract (off + src.size) d.size))
+  else none
+
+/-- index of the first NUL at or after `off`, relative to `off`, looking at no more than `n` bytes;
+`some (k, true)` found at k, `some (n, false)` none in the first n, `none` the array ends first -/
+def scanA (b : Array Byte) (off : Nat) : Nat → Nat → Option (Nat × Bool)
+  | 0, k => some (k, false)
+  | n + 1, k => match b[off + k]? with
+    | none => none
+    | some x => if x = 0 then some (k, true) else scanA b off n (k + 1)
+
+def cstrLenA (b : Array Byte) (off : Nat) : Option Nat := do
+  let (k, found) ← scanA b off (b.size + 1) 0
+  if found then pure k else none
+
+def specLong (fn : String) (bufs : Array Buf) (args : List Arg) : Option String := do
+  let dump (bs : Array (Array Byte)) : String := bs.foldl (fun s b => s ++ " " ++ hashedArr b) ""
+  let datas := bufs.map (·.data)
+  match fn, args with
+  | "memcpy", [.ptr (some d), .ptr (some s), .int n] | "memmove", [.ptr (some d), .ptr (some s), .int n] =>
+      let (di, doff) ← decodePtr bufs d
+      let (si, soff) ← decodePtr bufs s
+      let data ← sliceA (← datas[si]?) soff n.toNat
+      let nd ← blitA (← datas[di]?) doff data
+      pure ("+0" ++ dump (datas.set! di nd))
+  | "memset", [.ptr (some d), .int c, .int n] =>
+      let (di, doff) ← decodePtr bufs d
+      let nd ← blitA (← datas[di]?) doff (Array.replicate n.toNat (toChar c))
+      pure ("+0" ++ dump (datas.set! di nd))
+  | "strcpy", [.ptr (some d), .ptr (some s)] =>
+      let (di, doff) ← decodePtr bufs d
+      let (si, soff) ← decodePtr bufs s
+      let l ← cstrLenA (← datas[si]?) soff
+      let data ← sliceA (← datas[si]?) soff (l + 1)
+      let nd ← blitA (← datas[di]?) doff data
+      pure ("+0" ++ dump (datas.set! di nd))
+  | "strncpy", [.ptr (some d), .ptr (some s), .int n] =>
+      let (di, doff) ← decodePtr bufs d
+      let (si, soff) ← decodePtr bufs s
+      let (k, _) ← scanA (← datas[si]?) soff n.toNat 0
+      let data ← sliceA (← datas[si]?) soff k
+      let nd ← blitA (← datas[di]?) doff (data ++ Array.replicate (n.toNat - k) 0)
+      pure ("+0" ++ dump (datas.set! di nd))
+  | "strlcpy", [.ptr (some d), .ptr (some s), .int n] =>
+      let (di, doff) ← decodePtr bufs d
+      let (si, soff) ← decodePtr bufs s
+      let l ← cstrLenA (← datas[si]?) soff
+      if n.toNat = 0 then pure (toString l ++ dump datas) else
+      let data ← sliceA (← datas[si]?) soff (min l (n.toNat - 1))
+      let nd ← blitA (← datas[di]?) doff (data.push 0)
+      pure (toString l ++ dump (datas.set! di nd))
+  | "strcat", [.ptr (some d), .ptr (some s)] =>
+      let (di, doff) ← decodePtr bufs d
+      let (si, soff) ← decodePtr bufs s
+      let dl ← cstrLenA (← datas[di]?) doff
+      let l ← cstrLenA (← datas[si]?) soff
+      let data ← sliceA (← datas[si]?) soff (l + 1)
+      let nd ← blitA (← datas[di]?) (doff + dl) data
+      pure ("+0" ++ dump (datas.set! di nd))
+  | "strncat", [.ptr (some d), .ptr (some s), .int n] =>
+      let (di, doff) ← decodePtr bufs d
+      let (si, soff) ← decodePtr bufs s
+      let dl ← cstrLenA (← datas[di]?) doff
+      let (k, _) ← scanA (← datas[si]?) soff n.toNat 0
+      let data ← sliceA (← datas[si]?) soff k
+      let nd ← blitA (← datas[di]?) (doff + dl) (data.push 0)
+      pure ("+0" ++ dump (datas.set! di nd))
+  | "strdup", [.ptr (some s), .int fail] =>
+      let (si, soff) ← decodePtr bufs s
+      let l ← cstrLenA (← datas[si]?) soff
+      if fail ≠ 0 then pure ("N" ++ dump datas) else
+      let data ← sliceA (← datas[si]?) soff (l + 1)
+      pure (hashedArr data ++ dump datas)
+  | "strndup", [.ptr (some s), .int n, .int fail] =>
+      let (si, soff) ← decodePtr bufs s
+      let (k, _) ← scanA (← datas[si]?) soff n.toNat 0
+      if fail ≠ 0 then pure ("N" ++ dump datas) else
+      let data ← sliceA (← datas[si]?) soff k
+      pure (hashedArr (data.push 0) ++ dump datas)
+  | _, _ => none
+
+def longWriters : List String :=
+  ["memcpy", "memmove", "memset", "strcpy", "strncpy", "strlcpy", "strcat", "strncat", "strdup", "strndup"]
+
+def runOpLong (fn : String) (bufs : Array Buf) (args : List Arg) : String :=
+  if longWriters.contains fn then (specLong fn bufs args).getD "fault"
+  else runOpG true fn bufs args
+
+/-! ### ctype ops (round 3) -/
+
+def ctFns : List (String × (Int → Int) × Bool) :=
+  [("isalnum", isalnumI, true), ("isalpha", isalphaI, true), ("isblank", isblankI, true),
+   ("isdigit", isdigitI, true), ("islower", islowerI, true), ("isprint", isprintI, true),
+   ("isspace", isspaceI, true), ("isupper", isupperI, true), ("isxdigit", isxdigitI, true),
+   ("tolower", tolowerC, false), ("toupper", toupperC, false), ("isascii", isasciiI, true),
+   ("toascii", toasciiI, false)]
+
+def ctArgs : List Int := (List.range 257).map fun (i : Nat) => Int.ofNat i - 1
+
+def cttab (name : String) : Option String := do
+  let (_, f, cls) ← ctFns.find? (·.1 == name)
+  if cls then pure (String.ofList (ctArgs.map fun c => if f c ≠ 0 then '1' else '0'))
+  else pure (String.intercalate "," (ctArgs.map fun c => toString (f c)))
+
+def ctypeLine (c : Int) : String :=
+  String.intercalate " " (ctFns.map fun (_, f, cls) => toString (if cls then (if f c ≠ 0 then 1 else 0) else f c))
+
+def platNames : List String := ["long", "size_t", "int", "A", "Z", "a", "z", "delta"]
+
+def opLine (ws : List String) : Option String :=
+  match ws with
+  | fn :: rest => do
+      let big := fn.startsWith "L:"
+      let fn := if big then (fn.drop 2).toString else fn
+      let btoks := rest.takeWhile isBufTok
+      let atoks := rest.dropWhile isBufTok
+      let bufs ← (btoks.zipIdx).mapM fun (t, i) => if big then parseBufBig? i t else parseBuf? i t
+      let bufs := bufs.toArray
+      let args ← atoks.mapM (parseArg? bufs)
+      pure (if big then runOpLong fn bufs args else runOp fn bufs args)
+  | _ => none
 
 def stepLine (_ : Unit) (line : String) : Unit × String :=
   let r : Option String :=
     match words line with
     | ["reset"] => some "ok"
     | ["plat"] => some ("long=" ++ toString BLOCK_SZ ++ " char=signed")
-    | fn :: rest => do
-        let btoks := rest.takeWhile isBufTok
-        let atoks := rest.dropWhile isBufTok
-        let bufs ← (btoks.zipIdx).mapM fun (t, i) => parseBuf? i t
-        let bufs := bufs.toArray
-        let args ← atoks.mapM (parseArg? bufs)
-        pure (runOp fn bufs args)
-    | _ => none
+    | ["plat2"] => some (String.intercalate " " ((platNames.zip platConsts).map fun (n, v) => n ++ "=" ++ toString v))
+    | ["cttab", name, _] => cttab name
+    | ["ctype", c] => if c.startsWith "#" then (c.drop 1).toString.toInt?.map ctypeLine else none
+    | "premain" :: _ :: "cttab" :: name :: _ => cttab name
+    | "premain" :: _ :: rest => opLine rest
+    | ws => opLine ws
   ((), r.getD "bad-op")
 
 def main : IO Unit := run () stepLine
